@@ -4,7 +4,7 @@
    the functional model computes for the half leaf: [fst (del_up ctx (half c child))]. *)
 From Coq Require Import NArith List Bool Lia PeanoNat.
 From FV Require Import Rb.RbModel Rb.RbInorder Rb.RbLayout Rb.RbPtr Rb.RbPtrBase Rb.RbPtrRefineRot Rb.RbPtrRefineIns
-  Rb.RbPtrRefineFix Rb.RbPtrRemF Rb.RbPtrRefineRem.
+  Rb.RbPtrRefineFix Rb.RbPtrRemF Rb.RbPtrRefineRem Rb.RbPtrRefineReplace Rb.RbPtrAnnot Rb.RbPtrAnnotRot Rb.RbPtrAnnotLoops.
 Import ListNotations.
 
 Section Unlink.
@@ -20,6 +20,8 @@ Section Unlink.
   Notation treeSs := (treeSs elt annot id_of).
   Notation reprs := (reprs elt annot id_of).
   Notation uagg := (uagg elt).
+  Notation ainv := (ainv elt annot id_of agg).
+  Notation tkeys := (tkeys elt id_of ek).
 
   (* ---- the list part: pred->successor = succ; succ->predecessor = pred *)
   Definition list_unlink (s : pstate) (x : N) : pstate :=
@@ -179,6 +181,12 @@ Section Unlink.
   Lemma inorder_half' c (ch : tree) : inorder (fst (half c ch)) = inorder ch.
   Proof. apply inorder_half. Qed.
 
+  Lemma an_reset_links (s : pstate) i : p_annots (reset_links s i) = p_annots s.
+  Proof. reflexivity. Qed.
+  Lemma an_match_parent (s : pstate) (o : option N) v :
+    p_annots (match o with Some c0 => set_parent s c0 v | None => s end) = p_annots s.
+  Proof. destruct o; reflexivity. Qed.
+
   (* ---- remove_half_leaf(node, child): node = x with the single (possibly empty) child subtree ch *)
   Theorem remove_half_leaf_ok side fuel ctx c ch x a (s : pstate) :
     NoDup (ids (plug ctx (hl side c ch x a))) ->
@@ -186,7 +194,9 @@ Section Unlink.
     (snd (half c ch) = true -> rem_ok elt ctx) ->
     length ctx + 2 < fuel ->
     exists s', remove_half_leaf agg aeqb ek fuel s (id_of x) (root_id id_of ch) = POk s'
-               /\ reprs None s' (fst (del_up ctx (half c ch))).
+               /\ reprs None s' (fst (del_up ctx (half c ch)))
+               /\ (agg_ok agg aeqb -> tkeys (plug ctx (hl side c ch x a)) -> ainv (p_annots s) (plug ctx (hl side c ch x a)) ->
+                   ainv (p_annots s') (fst (del_up ctx (half c ch)))).
   Proof.
     intros Nd H Hok Hf. destruct a. apply reprS_split in H. destruct H as [Ht Hl].
     destruct (ids_hl side c ch x tt) as (pre & post & E1 & E2).
@@ -205,6 +215,8 @@ Section Unlink.
     set (s1 := list_unlink s (id_of x)) in *.
     assert (Ht1 : treeSs None s1 (plug ctx (hl side c ch x tt))).
     { unfold RbPtrRefineRot.treeSs. rewrite R1. eapply treeS_ts; [exact TS1|exact Ht]. }
+    assert (An1 : p_annots s1 = p_annots s).
+    { subst s1. unfold list_unlink. destruct (get_pred s (id_of x)), (get_succ s (id_of x)); reflexivity. }
     (* 2: the colours / fix_remove, with the node still in place *)
     set (hf := half c ch). set (ch' := fst hf). set (sh := snd hf). set (ctx2 := rem_ctx_b ctx sh).
     assert (Ech : ids ch' = ids ch) by (subst ch' hf; rewrite inorder_half'; reflexivity).
@@ -219,24 +231,40 @@ Section Unlink.
            match root_id id_of ch with Some c0 => POk (set_color s1 c0 (Some Black)) | None => PUB 334 end
          else fix_remove agg aeqb ek fuel s1 (id_of x)
        else POk s1) = POk s2
-      /\ treeSs None s2 (plug ctx2 (hl side c ch' x tt)) /\ ps_same (p_hooks s1) (p_hooks s2)).
+      /\ treeSs None s2 (plug ctx2 (hl side c ch' x tt)) /\ ps_same (p_hooks s1) (p_hooks s2)
+      /\ (agg_ok agg aeqb -> tkeys (plug ctx (hl side c ch x tt)) -> ainv (p_annots s1) (plug ctx (hl side c ch x tt)) ->
+          ainv (p_annots s2) (plug ctx2 (hl side c ch' x tt)))).
     { rewrite Hc1. rewrite (p_isRed_root _ _ id_of s1 ch _ Tch1).
       subst ctx2 sh ch' hf. unfold half. destruct c; cbn [ceqb].
-      - exists s1. split; [reflexivity|]. cbn [fst snd rem_ctx_b]. split; [exact Ht1|apply ps_refl].
+      - exists s1. split; [reflexivity|]. cbn [fst snd rem_ctx_b]. split; [exact Ht1|]. split; [apply ps_refl|auto].
       - destruct (isRed ch) eqn:Er.
         + destruct ch as [|[] cl cx ca cr]; try discriminate. cbn [root_id fst snd rem_ctx_b paintB].
-          eexists. split; [reflexivity|]. split; [|apply ps_set_color].
-          destruct side; cbn [hl] in *.
-          * apply (set_color_t _ _ id_of None (FR Black E x :: ctx) Red cl cx ca cr s1 Black); [exact Nd|left; reflexivity|exact Ht1].
-          * apply (set_color_t _ _ id_of None (FL Black x E :: ctx) Red cl cx ca cr s1 Black); [exact Nd|left; reflexivity|exact Ht1].
+          eexists. split; [reflexivity|]. split; [|split; [apply ps_set_color|]].
+          { destruct side; cbn [hl] in *.
+            * apply (set_color_t _ _ id_of None (FR Black E x :: ctx) Red cl cx ca cr s1 Black); [exact Nd|left; reflexivity|exact Ht1].
+            * apply (set_color_t _ _ id_of None (FL Black x E :: ctx) Red cl cx ca cr s1 Black); [exact Nd|left; reflexivity|exact Ht1]. }
+          intros _ _ Ha. change (p_annots (set_color s1 (id_of cx) (Some Black))) with (p_annots s1).
+          apply ainv_plug in Ha. apply ainv_plug. destruct side; cbn [hl] in *; exact Ha.
         + cbn [fst snd rem_ctx_b].
           assert (Hs : snd (half Black ch) = true) by (unfold half; rewrite Er; reflexivity).
           destruct side; cbn [hl] in *.
           * destruct (fix_remove_t _ _ id_of agg aeqb ek fuel ctx E x tt ch s1 Nd (Hok Hs) Ht1 ltac:(lia)) as (s2 & A & B & C).
-            exists s2. auto.
+            exists s2. split; [exact A|]. split; [exact B|]. split; [exact C|].
+            intros [Ao1 Ao2] Hk Ha.
+            destruct (fix_remove_PA _ _ id_of agg aeqb ek Ao1 Ao2 fuel s1 (id_of x) s2 A) as (t2 & N2 & T2 & K2 & A2).
+            { exists (plug ctx (T Black E x tt ch)). auto. }
+            assert (Kr : tkeys (plug (rem_ctx ctx) (T Black E x tt ch))).
+            { intros e He. apply Hk. rewrite <- (inorder_rem_ctx_b elt ctx true). exact He. }
+            rewrite <- (treeS_unique _ _ id_of ek None s2 _ _ T2 B eq_refl K2 Kr). exact A2.
           * destruct (fix_remove_t _ _ id_of agg aeqb ek fuel ctx ch x tt E s1 Nd (Hok Hs) Ht1 ltac:(lia)) as (s2 & A & B & C).
-            exists s2. auto. }
-    destruct Step2 as (s2 & E2' & Ht2 & PS2). rewrite E2'. cbn [pbind].
+            exists s2. split; [exact A|]. split; [exact B|]. split; [exact C|].
+            intros [Ao1 Ao2] Hk Ha.
+            destruct (fix_remove_PA _ _ id_of agg aeqb ek Ao1 Ao2 fuel s1 (id_of x) s2 A) as (t2 & N2 & T2 & K2 & A2).
+            { exists (plug ctx (T Black ch x tt E)). auto. }
+            assert (Kr : tkeys (plug (rem_ctx ctx) (T Black ch x tt E))).
+            { intros e He. apply Hk. rewrite <- (inorder_rem_ctx_b elt ctx true). exact He. }
+            rewrite <- (treeS_unique _ _ id_of ek None s2 _ _ T2 B eq_refl K2 Kr). exact A2. }
+    destruct Step2 as (s2 & E2' & Ht2 & PS2 & AN2). rewrite E2'. cbn [pbind].
     (* in-order walk unchanged *)
     assert (EL2 : ids (plug ctx2 (hl side c ch' x tt)) = L1 ++ id_of x :: L2).
     { subst ctx2. rewrite inorder_rem_ctx_b. rewrite <- EL. rewrite !ids_plug. f_equal. f_equal.
@@ -268,15 +296,51 @@ Section Unlink.
     set (s3 := tree_unlink s2 ctx2 (id_of x) (root_id id_of ch')) in *.
     (* aggregate_path *)
     assert (AP : exists s4, match cpar id_of ctx2 with Some _ => aggregate_path agg aeqb ek fuel s3 (cpar id_of ctx2) | None => POk s3 end = POk s4
-                            /\ p_hooks s4 = p_hooks s3 /\ p_root s4 = p_root s3).
-    { destruct (aggregate_path_ok _ _ id_of agg aeqb ek None ctx2 _ fuel s3 Hc3) as (s4 & A & B & C).
-      - subst ctx2. pose proof (length_rem_ctx_b elt ctx sh). lia.
-      - destruct (cpar id_of ctx2) eqn:Ecp; [exists s4; auto|]. exists s3. auto. }
-    destruct AP as (s4 & E4 & H4h & H4r). rewrite E4.
+                            /\ p_hooks s4 = p_hooks s3 /\ p_root s4 = p_root s3
+                            /\ (agg_ok agg aeqb -> ckeys elt id_of ek ctx2 -> acopen elt annot id_of agg (p_annots s3) ctx2 ->
+                                acinv elt annot id_of agg (p_annots s4) ctx2 (option_map (p_annots s3) (root_id id_of ch'))
+                                /\ forall j, ~ In j (cnodes elt id_of ctx2) -> p_annots s4 j = p_annots s3 j)).
+    { assert (Hlen : length ctx2 <= fuel) by (subst ctx2; pose proof (length_rem_ctx_b elt ctx sh); lia).
+      destruct (aggregate_path_ok _ _ id_of agg aeqb ek None ctx2 _ fuel s3 Hc3 Hlen) as (s4 & A & B & C).
+      assert (G : agg_ok agg aeqb -> ckeys elt id_of ek ctx2 -> acopen elt annot id_of agg (p_annots s3) ctx2 ->
+                  acinv elt annot id_of agg (p_annots s4) ctx2 (option_map (p_annots s3) (root_id id_of ch'))
+                  /\ forall j, ~ In j (cnodes elt id_of ctx2) -> p_annots s4 j = p_annots s3 j).
+      { intros [Ao1 Ao2] Hk Ho.
+        destruct (aggregate_path_annots _ _ id_of agg aeqb ek Ao1 None ctx2 (ids ch') (root_id id_of ch') fuel s3) as (s4' & A' & _ & _ & G1 & G2);
+          try assumption.
+        - rewrite ids_plug in Nd2. revert Nd2. destruct side; cbn [hl inorder]; rewrite ?map_app; cbn [map app]; rewrite ?app_nil_r; intros Nd2;
+            apply NoDup_count_occ with (decA := N.eq_dec); intros j; pose proof (count_le_1 _ j Nd2) as C0;
+            repeat rewrite ?count_occ_app in *; cbn [count_occ] in *; repeat rewrite ?count_occ_app in *; cbn [count_occ] in *;
+            destruct (N.eq_dec (id_of x) j); lia.
+        - intros i Hi. destruct ch' as [|? ? ? ? ?]; [discriminate|]. cbn in Hi. injection Hi as <-. cbn [inorder].
+          rewrite map_app, in_app_iff. right. left. reflexivity.
+        - rewrite A in A'. injection A' as <-. auto. }
+      destruct (cpar id_of ctx2) eqn:Ecp; [exists s4; auto|]. exists s3. split; [reflexivity|]. split; [reflexivity|]. split; [reflexivity|].
+      intros Ao Hk Ho. destruct ctx2; [|discriminate]. cbn. auto. }
+    destruct AP as (s4 & E4 & H4h & H4r & AN4). rewrite E4.
     exists s4. split; [reflexivity|].
-    (* the result *)
     assert (Eres : fst (del_up ctx hf) = plug ctx2 ch') by (subst ctx2 ch' sh; apply del_up_ctx').
     rewrite Eres.
+    assert (Ex0 : forall j, ~ In j (cids id_of ctx2) -> ~ In j (cnodes elt id_of ctx2)).
+    { intros j Hj Hc0. apply Hj. apply cnodes_cids. exact Hc0. }
+    split; [|
+      intros Ao Hk Ha;
+      assert (An3 : p_annots s3 = p_annots s2) by
+        (subst s3; unfold tree_unlink; rewrite (an_reset_links _ _), (an_match_parent _ _), (an_set_slot _ _ id_of); reflexivity);
+      rewrite An1 in AN2; specialize (AN2 Ao Hk Ha);
+      assert (Kc : tkeys (plug ctx2 (hl side c ch' x tt))) by
+        (intros e He; apply Hk; subst ctx2; rewrite (inorder_rem_ctx_b elt ctx sh) in He;
+         rewrite inorder_plug in *; revert He; destruct side; cbn [hl inorder]; subst ch' hf; rewrite inorder_half'; auto);
+      apply tkeys_plug in Kc; destruct Kc as [Kh Kc];
+      apply ainv_plug in AN2; destruct AN2 as [Ah Ac];
+      destruct (AN4 Ao Kc) as [G1 G2]; [rewrite An3; eapply acinv_open; exact Ac|];
+      apply ainv_plug; rewrite An3 in G1, G2;
+      assert (Fch : forall j, In j (ids ch') -> p_annots s4 j = p_annots s2 j) by
+        (intros j Hj; apply G2, Ex0; unfold cids; rewrite ids_plug in Nd2; revert Hj Nd2; clear;
+         destruct side; cbn [hl inorder]; rewrite ?map_app; cbn [map]; intros Hj Nd2; ni Nd2);
+      split; [eapply ainv_ext; [exact Fch|destruct side; cbn [hl RbPtrAnnot.ainv] in Ah; tauto]|];
+      rewrite (aval_ext _ _ id_of _ _ ch' Fch); exact G1 ].
+    (* the result *)
     apply reprS_split. unfold RbPtrRefineRot.treeSs in Ht3. rewrite H4h, H4r. split; [exact Ht3|].
     assert (EL3 : ids (plug ctx2 ch') = L1 ++ L2).
     { rewrite ids_plug in EL2 |- *.
